@@ -33,10 +33,17 @@ def act(kind, key):
         raise addrxlat.NotImplementedError("not implemented: " + key)
     if kind == "str":
         return "not a number"
+    if kind.startswith("sc"):
+        # any status, as a C implementation below a Python layer may return it: libaddrxlat's own codes, codes it does not
+        # know, and negative ones (ADDRXLAT_ERR_CUSTOM_BASE downwards: libkdumpfile hands its own kdump_status through
+        # libaddrxlat as -status)
+        raise addrxlat.get_exception(int(kind[2:].replace("m", "-")), "status %s for %s" % (kind[2:], key))
     raise AssertionError(kind)
 
 
-KINDS = ("val", "zero", "big", "none", "myerr", "key", "nodata", "notimpl", "str")
+STATUSES = (1, 2, 3, 4, 5, 6, 7, 100, 0x7fffffff, -2, -3, -4, -5, -6, -7, -8, -9, -10, -1000, -0x7fffffff)
+KINDS = ("val", "zero", "big", "none", "myerr", "key", "nodata", "notimpl", "str") + tuple(
+    "sc" + str(n).replace("-", "m") for n in STATUSES)
 
 
 class Base(addrxlat.Context):
@@ -97,6 +104,23 @@ def with_layers(ctx, depth, fn):
     return res[0]
 
 
+def memarr_conv(ctx, base):
+    meth = addrxlat.MemoryArrayMethod()
+    meth.target_as = addrxlat.KPHYSADDR
+    meth.base = addrxlat.FullAddress(addrxlat.MACHPHYSADDR, base)
+    meth.shift = 12
+    meth.elemsz = 8
+    meth.valsz = 8
+    sys_ = addrxlat.System()
+    map_ = addrxlat.Map()
+    sys_.set_meth(addrxlat.SYS_METH_CUSTOM + 1, meth)
+    map_.set(0, addrxlat.Range(0xffffff, addrxlat.SYS_METH_CUSTOM + 1))
+    sys_.set_map(addrxlat.SYS_MAP_KV_PHYS, map_)
+    fa = addrxlat.FullAddress(addrxlat.KVADDR, 0x3123)
+    fa.conv(addrxlat.KPHYSADDR, ctx, sys_)
+    return "%x" % fa.addr
+
+
 def observe(n):
     def fn(obj):
         out = []
@@ -108,7 +132,11 @@ def observe(n):
             out.append("sym_offsetof %s:o.e %d -> %s" % (kind, n, outcome(obj.cb_sym_offsetof, kind + ":o", "e")))
         for pg in range(len(KINDS)):
             fa = addrxlat.FullAddress(addrxlat.MACHPHYSADDR, pg << 12)
-            out.append("get_page %x %d -> %s" % (pg << 12, n, outcome(obj.cb_get_page, fa)))
+            out.append("get_page %s:%x %d -> %s" % (KINDS[pg], pg << 12, n, outcome(obj.cb_get_page, fa)))
+        # the same page fetches made by libaddrxlat itself (a C caller of the top record, which sees the status as a number):
+        # a MEMARR look-up whose array lives in the page, through the context object under test
+        for pg in range(len(KINDS)):
+            out.append("memarr %s:%x %d -> %s" % (KINDS[pg], pg << 12, n, outcome(memarr_conv, obj, pg << 12)))
         out.append("read_caps - %d -> %s" % (n, outcome(obj.cb_read_caps)))
         return out
     return fn
